@@ -17,7 +17,8 @@
      ArraySequence._resize_data_to   -> resize_to   (rows_per_buf rounding, size==0 -> np.empty,
                                                      same size -> nothing, shared -> copy)
      ArraySequence.shrink_data       -> shrink      (resize(refcheck=False), in place)
-     append / finalize_append / extend / copy / __getitem__ / __setitem__ / _op / concatenate
+     append / finalize_append / extend / copy / __getitem__ / __setitem__ / _op (scalar and
+     ArraySequence operand, bitwise operators included) / concatenate
                                      -> do_append / finalize / extend / do_copy / step cases. *)
 From Coq Require Import ZArith List Bool Arith.
 Import ListNotations.
@@ -257,12 +258,52 @@ Fixpoint assign_seq (st : state) (bid : nat) (dst : list (nat * nat)) (jb : nat)
   end.
 
 (* ---- operators: the row payload algebra is a function Z -> Z *)
-Inductive fn := FAdd (k : Z) | FMul (k : Z) | FNeg | FLt (k : Z) | FEq (k : Z).
+Inductive fn := FAdd (k : Z) | FMul (k : Z) | FNeg | FLt (k : Z) | FEq (k : Z)
+              | FOr (k : Z) | FAnd (k : Z) | FXor (k : Z) | FShl (k : Z) | FShr (k : Z).
 Definition apply_fn (f : fn) (v : Z) : Z :=
   match f with
   | FAdd k => (v + k)%Z | FMul k => (v * k)%Z | FNeg => (- v)%Z
   | FLt k => if (v <? k)%Z then 1%Z else 0%Z
   | FEq k => if (v =? k)%Z then 1%Z else 0%Z
+  | FOr k => Z.lor v k | FAnd k => Z.land v k | FXor k => Z.lxor v k
+  | FShl k => Z.shiftl v k | FShr k => Z.shiftr v k
+  end.
+(* binary operators with an ArraySequence operand *)
+Inductive fn2 := BAdd | BSub | BMul | BLt | BEq | BOr | BAnd | BXor.
+Definition apply_fn2 (g : fn2) (a b : Z) : Z :=
+  match g with
+  | BAdd => (a + b)%Z | BSub => (a - b)%Z | BMul => (a * b)%Z
+  | BLt => if (a <? b)%Z then 1%Z else 0%Z
+  | BEq => if (a =? b)%Z then 1%Z else 0%Z
+  | BOr => Z.lor a b | BAnd => Z.land a b | BXor => Z.lxor a b
+  end.
+Fixpoint zip_with (g : Z -> Z -> Z) (a b : list Z) : list Z :=
+  match a, b with x :: a', y :: b' => g x y :: zip_with g a' b' | _, _ => [] end.
+(* self_rows <op> value_rows with NumPy broadcasting of a one-row operand; None = ValueError
+   (also when the result would not fit the l1 rows it is stored into) *)
+Definition elem_op (g : Z -> Z -> Z) (a b : list Z) : option (list Z) :=
+  if length b =? length a then Some (zip_with g a b)
+  else match b with [y] => Some (map (fun x => g x y) a) | _ => None end.
+(* in place: element after element in buffer `bid`, each step reads the CURRENT rows of the operand
+   (which may live in the same buffer); a ValueError leaves the elements already updated *)
+Fixpoint op_seq_inplace (st : state) (bid : nat) (g : Z -> Z -> Z) (dst : list (nat * nat)) (jb : nat)
+         (src : list (nat * nat)) : state * option err :=
+  match dst, src with
+  | (o1, l1) :: dr, (o2, l2) :: sr =>
+    match elem_op g (slice o1 l1 (rows (getbuf (heap st) bid))) (slice o2 l2 (rows (getbuf (heap st) jb))) with
+    | Some e => op_seq_inplace (write_buf st bid o1 e) bid g dr jb sr
+    | None => (st, Some EValue)
+    end
+  | _, _ => (st, None)
+  end.
+(* out of place: the rows of the result, element after element *)
+Fixpoint op_seq_rows (g : Z -> Z -> Z) (a b : list (list Z)) : option (list Z) :=
+  match a, b with
+  | x :: a', y :: b' => match elem_op g x y, op_seq_rows g a' b' with
+                        | Some e, Some r => Some (e ++ r)
+                        | _, _ => None
+                        end
+  | _, _ => Some []
   end.
 (* element after element, in place in buffer bid (an element listed twice is updated twice) *)
 Definition map_elems (st : state) (bid : nat) (f : Z -> Z) (ol : list (nat * nat)) : state :=
@@ -283,7 +324,8 @@ Inductive op :=
   | OSetIdx (i : nat) (ix : index) (v : value)
   | OOp (i : nat) (f : fn) (inplace : bool) (dtchg : bool)
   | OConcat (js : list (nat * Z))
-  | ODrop (i : nat).
+  | ODrop (i : nat)
+  | OOpSeq (i : nat) (g : fn2) (j : nat) (inplace : bool) (dtchg : bool).
 
 Inductive result := ROk | RElem (e : list Z) | RErr (e : err).
 
@@ -402,6 +444,34 @@ Definition step (st : state) (o : op) : state * result :=
     if is_live st i then
       let s := getseq st i in
       (set_seq st i (mkSeq (sbuf s) (offs s) (lens s) (is_view s) (bufbytes s) (scache s) false), ROk)
+    else (st, RErr EBadSeq)
+  | OOpSeq i g j inplace dtchg =>
+    if is_live st i && is_live st j then
+      let s := getseq st i in
+      let t := getseq st j in
+      (* _check_shape: number of elements, then total number of rows *)
+      if negb (length (lens s) =? length (lens t)) then (st, RErr EValue)
+      else if negb (sum (lens s) =? sum (lens t)) then (st, RErr EValue)
+      else match offs s with
+      | [] => (st, RErr EStopIteration)
+      | _ =>
+        if inplace then
+          match op_seq_inplace st (sbuf s) (apply_fn2 g) (combine (offs s) (lens s)) (sbuf t)
+                               (combine (offs t) (lens t)) with
+          | (st1, None) => (st1, ROk)
+          | (st1, Some e) => (st1, RErr e)
+          end
+        else
+          match op_seq_rows (apply_fn2 g) (contents st s) (contents st t) with
+          | None => (st, RErr EValue)               (* the local copy is dropped *)
+          | Some r =>
+            let st1 := do_copy st i in
+            let k := length (seqs st) in
+            let b := getbuf (heap st1) (sbuf (getseq st1 k)) in
+            let st2 := if dtchg then new_buf_for st1 k b else st1 in
+            (set_buf st2 (sbuf (getseq st2 k)) (mkBuf (cap b) r), ROk)
+          end
+      end
     else (st, RErr EBadSeq)
   end.
 
